@@ -1460,3 +1460,40 @@ Example paths_anchored_example :
   norm_path (s "/work/proj") (s "/abs/x/../y") = s "/abs/y" /\
   norm_path (s "/work/proj") [] = s "/work/proj".
 Proof. repeat split; vm_compute; reflexivity. Qed.
+
+(* ------------------------------------------------------------------ further non-vacuity examples *)
+Definition demo_options : list (str * aval) :=
+  [(s "project", VStr [s "Demo"]); (s "src_dir", VList [s "./src"; s "lib/../x"]);
+   (s "max_frontpage_items", VInt 4); (s "graph", VBool true);
+   (s "alias", VDict [(s "a", s "b"); (s "c", s "d e")]);
+   (s "extra_mods", VDict [(s "json_module", s "http://x.org/json")]);
+   (s "summary", VStr [s "first"; s "second"])].
+
+Example md_toml_agree_nonvacuous :
+  wt_options demo_options = true /\ forallb (fun kv => simple_value (snd kv)) demo_options = true /\
+  field_is (effective_md demo_input demo_options) (s "src_dir")
+           (PList [PPath (s "/work/proj/src"); PPath (s "/work/proj/x")]) = true /\
+  field_is (effective_toml demo_input demo_options) (s "max_frontpage_items") (PInt 4) = true.
+Proof. repeat split; vm_compute; reflexivity. Qed.
+
+Example ill_typed_md_dict_example :
+  aget (s "alias") option_separators = Some ["="%char] /\ s "novalue" <> [] /\
+  existsb (Ascii.eqb "="%char) (s "novalue") = false /\
+  convert_setting TDictStr (s "alias") (PList [PStr (s "novalue")]) = Err (s "RuntimeError") (s "alias") true.
+Proof. repeat split; try (vm_compute; reflexivity). discriminate. Qed.
+
+Example md_int_error_example : py_int (s "four") = None /\ py_int (s "1__0") = None /\ py_int (s "0x10") = None.
+Proof. repeat split; vm_compute; reflexivity. Qed.
+
+Example paths_anchored_hyps :
+  Ascii.eqb "."%char slash = false /\
+  existsb (fun x => seqb x (s "..")) (split_ch slash (s "./src//sub/")) = false /\
+  norm_comps (split_ch slash (s "/work/./proj/")) [] = [s "work"; s "proj"].
+Proof. repeat split; vm_compute; reflexivity. Qed.
+
+Example paths_relative_example :
+  effective (mkinput [s "css: style/my.css"] None None [] (s "/work/proj") (s "") (s "/opt/ford"))
+  = effective (mkinput [s "css: style/my.css"] None None [] (s "/work/a/b") (s "../../proj") (s "/opt/ford")) /\
+  field_is (effective (mkinput [s "css: style/my.css"] None None [] (s "/work/a/b") (s "../../proj") (s "/opt/ford")))
+           (s "css") (PPath (s "/work/proj/style/my.css")) = true.
+Proof. split; vm_compute; reflexivity. Qed.
